@@ -43,6 +43,7 @@ type World struct {
 	AllFuncs map[*ssa.Function]bool
 	srcCache map[string][]byte
 	Overlay  map[string][]byte
+	Notes    []string // normalisations applied before analysis
 }
 
 func envFor(arch string) []string {
@@ -64,6 +65,14 @@ func envFor(arch string) []string {
 // LoadWorld loads the repository. overlay maps absolute file names to replacement
 // contents (used by the sensitivity battery; never written to disk).
 func LoadWorld(repo string, overlay map[string][]byte, arch string) (*World, error) {
+	w, err := loadWorld(repo, overlay, arch, true)
+	if err != nil {
+		return nil, err
+	}
+	return w, nil
+}
+
+func loadWorld(repo string, overlay map[string][]byte, arch string, normalise bool) (*World, error) {
 	cfg := &packages.Config{
 		Mode:    packages.LoadSyntax | packages.NeedModule,
 		Dir:     repo,
@@ -104,6 +113,27 @@ func LoadWorld(repo string, overlay map[string][]byte, arch string) (*World, err
 	if len(w.Repo) < 9 {
 		return nil, fmt.Errorf("expected at least 9 repository packages, loaded %d", len(w.Repo))
 	}
+	if normalise {
+		// E1b: grouped fields of component structs are analysed as top-level fields (see flatten.go)
+		if extra, notes := groupedFieldOverlays(w.Fset, w.Repo, overlay); len(extra) > 0 {
+			merged := map[string][]byte{}
+			for k, v := range overlay {
+				merged[k] = v
+			}
+			for k, v := range extra {
+				merged[k] = v
+			}
+			if w2, err2 := loadWorld(repo, merged, arch, false); err2 == nil {
+				w2.Notes = notes
+				return w2, nil
+			} else {
+				notes = append(notes, "grouped-field normalisation abandoned (the rewritten source does not compile): "+strings.Split(err2.Error(), "\n")[0])
+			}
+			w.Notes = notes
+		} else {
+			w.Notes = notes
+		}
+	}
 	// G1/soundness caveat: no unsafe, no cgo, no build-constrained files in repo packages.
 	for _, p := range w.Repo {
 		for _, f := range p.Syntax {
@@ -127,6 +157,7 @@ func LoadWorld(repo string, overlay map[string][]byte, arch string) (*World, err
 	prog.Build()
 	w.Prog = prog
 	w.AllFuncs = ssautil.AllFunctions(prog)
+	nilWorld = w
 	return w, nil
 }
 
